@@ -54,6 +54,7 @@
 From Coq Require Import List NArith ZArith Bool Arith Lia.
 Import ListNotations.
 Require Import Parser SBase SPrim SDir SScalar SFetch Pipe SBuf Drivers BlockScalar BlockScalarProofs BlockScalarCase.
+Require Import FlowText ScalarContext ScalarContextBlock.
 Open Scope N_scope.
 
 (* ---- T1 ---- *)
@@ -569,3 +570,118 @@ Example C05_case_instance_ex810_crlf :
                 = Ok ((sp, TScalar Folded (L "/folded line/next line/  * bullet//  * list/  * lines//last line/")), s')
                 /\ si_chars (sc_in s') = with_breaks 1 (L "# Comment/").
 Proof. apply (block_scalar_case_top ex810_crlf 60); [reflexivity|reflexivity|reflexivity|cbn; lia]. Qed.
+
+(* ---- T6: block scalars in DOCUMENT context, text -> tokens -> events (Proofs/ScalarContext.v, ScalarContextBlock.v) ---- *)
+(* T5 composed with the scanner skeleton (fetch_next_token dispatch, save_simple_key / the key that may still be pending
+   when the input ends, roll_indent / roll_one_col_indent / unroll_indent, Key / BlockMappingStart back-insertion, the token
+   queue handed out between the fetches, the end of the input in two BlockEnd batches) and with the parser theorem
+   (Proofs/TokenGrammarProofs.v: parse_wrap).  The left side is the specification's own rendering [case_text b], the right
+   side the specification's value [case_value b]; for EVERY case b with case_ok b = true outside the leading-tab class, every
+   style / chomping / indicator / header comment / line list / break style, whose scalar ENDS THE INPUT (with or without
+   a final line break: [ends_input]), in three positions:
+     C05_document_top    the document is the scalar                      (bc_prefix = "",      bc_parent = None)
+     C05_document_value  value of the pair of a top-level block mapping  (bc_prefix = "key: ", bc_parent = Some 0)
+     C05_document_entry  entry of a top-level block sequence             (bc_prefix = "- ",    bc_parent = Some 0)
+   run_str is the whole model pipeline on the string input; the event list is complete (PDone). *)
+Theorem C05_document_top : forall b,
+  case_ok b = true -> leading_tab_b b = false -> bc_parent b = None -> bc_prefix b = [] -> ends_input b = true ->
+  map fst (fst (run_str (case_text b)))
+  = [EStreamStart; EDocumentStart false; EScalar (case_value b) (if bc_literal b then Literal else Folded) 0 None;
+     EDocumentEnd; EStreamEnd]
+  /\ snd (run_str (case_text b)) = PDone.
+Proof. exact run_block_top. Qed.
+Print Assumptions C05_document_top.
+
+Theorem C05_document_value : forall b kw,
+  case_ok b = true -> leading_tab_b b = false -> bc_parent b = Some O -> key_ok kw = true -> bc_prefix b = kw ++ [58; 32] ->
+  ends_input b = true ->
+  map fst (fst (run_str (case_text b)))
+  = [EStreamStart; EDocumentStart false; EMappingStart 0 None; EScalar kw Plain 0 None;
+     EScalar (case_value b) (if bc_literal b then Literal else Folded) 0 None; EMappingEnd; EDocumentEnd; EStreamEnd]
+  /\ snd (run_str (case_text b)) = PDone.
+Proof. exact run_block_value. Qed.
+Print Assumptions C05_document_value.
+
+Theorem C05_document_entry : forall b,
+  case_ok b = true -> leading_tab_b b = false -> bc_parent b = Some O -> bc_prefix b = [45; 32] -> ends_input b = true ->
+  map fst (fst (run_str (case_text b)))
+  = [EStreamStart; EDocumentStart false; ESequenceStart 0 None;
+     EScalar (case_value b) (if bc_literal b then Literal else Folded) 0 None; ESequenceEnd; EDocumentEnd; EStreamEnd]
+  /\ snd (run_str (case_text b)) = PDone.
+Proof. exact run_block_entry. Qed.
+Print Assumptions C05_document_entry.
+
+(* the token level of the same three theorems *)
+Theorem C05_document_tokens : forall b,
+  case_ok b = true -> leading_tab_b b = false -> ends_input b = true ->
+  (bc_parent b = None -> bc_prefix b = [] ->
+   exists toks, scan_str (case_text b) = (toks, SEnded) /\
+     map snd toks = [TStreamStart; TScalar (if bc_literal b then Literal else Folded) (case_value b); TStreamEnd]) /\
+  (forall kw, bc_parent b = Some O -> key_ok kw = true -> bc_prefix b = kw ++ [58; 32] ->
+   exists toks, scan_str (case_text b) = (toks, SEnded) /\
+     map snd toks = [TStreamStart; TBlockMappingStart; TKey; TScalar Plain kw; TValue;
+                     TScalar (if bc_literal b then Literal else Folded) (case_value b); TBlockEnd; TStreamEnd]) /\
+  (bc_parent b = Some O -> bc_prefix b = [45; 32] ->
+   exists toks, scan_str (case_text b) = (toks, SEnded) /\
+     map snd toks = [TStreamStart; TBlockSequenceStart; TBlockEntry;
+                     TScalar (if bc_literal b then Literal else Folded) (case_value b); TBlockEnd; TStreamEnd]).
+Proof.
+  exact (fun b Hok Htab Hend =>
+    conj (fun Hp Hpre => scan_block_top b Hok Htab Hp Hpre (ends_input_rest b Hend))
+   (conj (fun kw Hp Hk Hpre => scan_block_value b kw Hok Htab Hp Hk Hpre (ends_input_rest b Hend))
+         (fun Hp Hpre => scan_block_entry b Hok Htab Hp Hpre (ends_input_rest b Hend)))).
+Qed.
+Print Assumptions C05_document_tokens.
+
+(* instances, every hypothesis evaluated.  Top level: literal, strip, a blank line, a more-indented line, a trailing line of
+   one space, a final line break: "|-\n x\n\n  y\n \n" *)
+Definition ctx_top : bcase := mkcase true CStrip None None [] [] [R 1 "x"; R 0 ""; R 2 "y"; R 1 ""] EofNewline.
+Example C05_document_top_instance :
+  case_text ctx_top = L "|-/ x//  y/ /" /\
+  map fst (fst (run_str (L "|-/ x//  y/ /")))
+  = [EStreamStart; EDocumentStart false; EScalar (L "x// y") Literal 0 None; EDocumentEnd; EStreamEnd]
+  /\ snd (run_str (L "|-/ x//  y/ /")) = PDone.
+Proof. split; [reflexivity|]. exact (run_block_top ctx_top eq_refl eq_refl eq_refl eq_refl eq_refl). Qed.
+(* content at column 0, folded, keep, no final line break: ">+\na\nb\n\n c" *)
+Definition ctx_top0 : bcase := mkcase false CKeep None None [] [] [R 0 "a"; R 0 "b"; R 0 ""; R 1 "c"] EofNone.
+Example C05_document_top_instance_column0 :
+  case_text ctx_top0 = L ">+/a/b// c" /\
+  map fst (fst (run_str (L ">+/a/b// c")))
+  = [EStreamStart; EDocumentStart false; EScalar (L "a b// c/") Folded 0 None; EDocumentEnd; EStreamEnd]
+  /\ snd (run_str (L ">+/a/b// c")) = PDone.
+Proof. split; [reflexivity|]. exact (run_block_top ctx_top0 eq_refl eq_refl eq_refl eq_refl eq_refl). Qed.
+(* the header alone: "|" — the key saved for the scalar is still pending when the input ends (the other path of end_unit) *)
+Definition ctx_top_empty : bcase := mkcase true CClip None None [] [] [] EofNone.
+Example C05_document_top_instance_header_only :
+  case_text ctx_top_empty = L "|" /\
+  map fst (fst (run_str (L "|"))) = [EStreamStart; EDocumentStart false; EScalar [] Literal 0 None; EDocumentEnd; EStreamEnd]
+  /\ snd (run_str (L "|")) = PDone.
+Proof. split; [reflexivity|]. exact (run_block_top ctx_top_empty eq_refl eq_refl eq_refl eq_refl eq_refl). Qed.
+(* mapping value: folded, keep, explicit indentation, a header comment, CR LF breaks, the input ends inside a last line of one space *)
+Definition ctx_value : bcase :=
+  {| bc_literal := false; bc_chomp := CKeep; bc_explicit := Some 1%nat; bc_digit_first := true; bc_parent := Some O;
+     bc_prefix := L "key: "; bc_hc := L " # c"; bc_raw := [R 1 "x"; R 1 "y"; R 0 ""; R 3 "z"; R 1 "w"; R 1 ""]; bc_eof := EofNone;
+     bc_brk := 1 |}.
+Example C05_document_value_instance :
+  case_text ctx_value = with_breaks 1 (L "key: >1+ # c/ x/ y//   z/ w/ ") /\
+  map fst (fst (run_str (with_breaks 1 (L "key: >1+ # c/ x/ y//   z/ w/ "))))
+  = [EStreamStart; EDocumentStart false; EMappingStart 0 None; EScalar (L "key") Plain 0 None;
+     EScalar (L "x y//  z/w//") Folded 0 None; EMappingEnd; EDocumentEnd; EStreamEnd]
+  /\ snd (run_str (with_breaks 1 (L "key: >1+ # c/ x/ y//   z/ w/ "))) = PDone.
+Proof. split; [reflexivity|]. exact (run_block_value ctx_value (L "key") eq_refl eq_refl eq_refl eq_refl eq_refl eq_refl). Qed.
+(* sequence entry: literal, clip, auto-detected indentation 3 behind a leading empty line, lone CR breaks *)
+Definition ctx_entry : bcase :=
+  {| bc_literal := true; bc_chomp := CClip; bc_explicit := None; bc_digit_first := false; bc_parent := Some O;
+     bc_prefix := L "- "; bc_hc := []; bc_raw := [R 0 ""; R 3 "x"; R 5 "- y: z"; R 3 "# no comment"; R 0 ""]; bc_eof := EofNewline;
+     bc_brk := 2 |}.
+Example C05_document_entry_instance :
+  case_text ctx_entry = with_breaks 2 (L "- |//   x/     - y: z/   # no comment//") /\
+  map fst (fst (run_str (with_breaks 2 (L "- |//   x/     - y: z/   # no comment//"))))
+  = [EStreamStart; EDocumentStart false; ESequenceStart 0 None; EScalar (L "/x/  - y: z/# no comment/") Literal 0 None;
+     ESequenceEnd; EDocumentEnd; EStreamEnd]
+  /\ snd (run_str (with_breaks 2 (L "- |//   x/     - y: z/   # no comment//"))) = PDone.
+Proof. split; [reflexivity|]. exact (run_block_entry ctx_entry eq_refl eq_refl eq_refl eq_refl eq_refl). Qed.
+(* the hypotheses are not vacuous restrictions: a scalar followed by a sibling key does not end the input, and the tab class *)
+Example C05_document_ends_input_excludes :
+  ends_input (mkcase true CClip None (Some O) (L "a: ") [] [R 2 "x"] (EofRest (L "b: 1/"))) = false /\ leading_tab_b witness_tab = true.
+Proof. split; reflexivity. Qed.
